@@ -147,6 +147,8 @@ def build_model_cone(p):
 
 
 def theorem_names(p):
+    if not os.path.exists(os.path.join(p.coq, "Properties.v")):
+        return []
     src = strip_comments(open(os.path.join(p.coq, "Properties.v")).read())
     return re.findall(r"^\s*(?:Theorem|Lemma|Corollary|Example|Fact)\s+([A-Za-z_][\w']*)", src, re.M)
 
@@ -156,6 +158,10 @@ def build_proofs(p):
     res = dict(ok=False, obligations=0, discharged=0, failing=[], axioms={}, forbidden=[], out="")
     names = theorem_names(p)
     res["obligations"] = len(names)
+    if not names:
+        res["failing"] = ["no theorems: coq/Properties.v missing or empty"]
+        sh("timeout 2400 make -k -j%d" % NCPU, cwd=p.coq)
+        return res
     # forbidden vernacular anywhere in the development
     for d in (BASE_COQ, p.coq):
         for f in sorted(os.listdir(d)):
